@@ -86,6 +86,26 @@ func C02(c *Ctx) {
 					}
 				})
 			}
+			// a slot that is filled only while it is empty (or only under some other test of its own content) keeps one
+			// participant's value and ignores the others' — a different defect from overwriting, reported as such
+			if !guarded && !compared {
+				for _, cd := range ssax.Conds(cb) {
+					px, py := ssax.Path(cd.X), ""
+					if cd.Y != nil {
+						py = ssax.Path(cd.Y)
+					}
+					if !(strings.Contains(px, ".DKGProposalPayload."+field) || strings.Contains(py, ".DKGProposalPayload."+field)) {
+						continue
+					}
+					for _, succ := range []int{0, 1} {
+						if !ssax.ReachableAvoiding(cb, st, []ssax.Edge{{From: cd.If.Block(), Succ: succ}}, nil) {
+							r.Fail("C02/R1", "dkg_proposal_fsm.actionMasterKeyConfirmationReceived:DKGProposalPayload."+field+":kept-from-one-announcement", "a round-global value taken from one participant's announcement is checked against the others'", c.PosOf(st),
+								"DKGProposalPayload."+field+" is assigned only under a test of its own content at "+c.PosOf(cd.If)+" (filled while empty): the node retains the FIRST value announced and never compares it with the others — a deviating announcement that arrives first is retained by every node")
+							return
+						}
+					}
+				}
+			}
 			r.Check(guarded || compared, "C02/R1", "dkg_proposal_fsm.actionMasterKeyConfirmationReceived:DKGProposalPayload."+field, "a round-global value taken from one participant's announcement is checked against the others'", c.PosOf(st),
 				"DKGProposalPayload."+field+" = request."+field+" is last-writer-wins: it is neither guarded by equality with the previously announced value nor compared by the validator, so nodes retain whatever arrived last and a deviating announcement (same group key, different polynomial) is accepted")
 		})
@@ -140,6 +160,23 @@ func C02(c *Ctx) {
 		}
 		r.Check(len(appends) == 1 && bad == "", "C02/R3", "airgapped.master-key-handler:announcement-xor-error", "the key announcement is produced only when nothing can fail afterwards (so a machine that could not store its share never confirms)", c.Pos(hf.Pos()),
 			"an error return at "+bad+" is reachable after the announcement was appended: the node would post both, every FSM accepts the confirmation and rejects the error, and the round becomes signing-ready while this machine holds no share")
+	}
+	// ---- R5: the polynomial a reinitialised round retains is the airgapped machine's answer
+	r.Rule("C02/R5", "the polynomial written back for a reinitialised round is the submitted answer's ExtraData", 1)
+	if ex := c.Fn("C02/R5", pkgNode, "BaseNodeService", "executeOperation"); ex != nil {
+		var stores []*ssa.Store
+		ssax.Instrs(ex, func(in ssa.Instruction) {
+			if st, ok := in.(*ssa.Store); ok && strings.HasSuffix(ssax.Path(st.Addr), ".DKGProposalPayload.PubPolyBz") {
+				stores = append(stores, st)
+			}
+		})
+		ok := len(stores) == 1 && ssax.Path(stores[0].Val) == "operation.ExtraData"
+		detail := sprintf("%d stores", len(stores))
+		if len(stores) == 1 {
+			detail = "PubPolyBz := " + ssax.Path(stores[0].Val)
+		}
+		r.Check(ok, "C02/R5", "node.executeOperation:retained-polynomial", "the round's polynomial is set from the ExtraData of the operation as submitted (the airgapped machine's public polynomial)", c.Pos(ex.Pos()),
+			detail+" — the stored operation's ExtraData holds the reinit message hash, not a polynomial: every hot node would retain garbage and no signature could be reconstructed")
 	}
 	// ---- R4
 	thresholdWriters(c, "C02/R4")
